@@ -2,7 +2,8 @@ SPECIFICATION Spec
 CONSTANTS
   Jobs = {"j1", "j2", "j3"}
   Waiters = {"w1"}
-  Kinds = {"ok", "error", "panic"}
+  Kinds = {"ok", "error", "panic", "eof", "canceled", "deadline"}
+  Workers = {0, 1, 2}
   Depth = 12
 INVARIANT Inv
 VIEW view
